@@ -295,6 +295,13 @@ def run_dataflow(case, backend, via_hypotest=False):
             out['hypotest'] = [tofloat(tb, r[0]), [tofloat(tb, x) for x in r[1]]]
         else:
             calc = C.ToyCalculator(data, model, init, bounds, fixed, test_stat=ts, ntoys=n, track_progress=False)
+            # the same calculator object asked about other tested values first: the measured call below must not depend on them
+            for p0 in case.get('warmup', []):
+                calc.teststatistic(p0)
+                calc.distributions(p0)
+            for k in ('fits', 'pdf_pars', 'draws', 'ts_bad'):
+                log[k][:] = []
+            log['ts_calls'] = 0
             t = calc.teststatistic(poi)
             out['teststat'] = tofloat(tb, t)
             sb, b = calc.distributions(poi)
@@ -630,6 +637,9 @@ def run(ctx):
             pool = sorted(set(r0['sb'] + r0['b']))
             # observed statistics inside the range of the toy statistics (ties with toys included), one outside
             c0['tobs'] = [None] + [float(rng.choice(pool)) for _ in range(3)] + [float(pool[0]) - 0.25]
+            if len(dcases) % 2 == 1:
+                # ONE calculator object reused: other tested values first (never the measured one)
+                c0['warmup'] = [p for p in rng.sample([0.25, 0.75, 1.25, 2.5, 3.0], rng.choice([1, 2])) if p != poi]
             dcases.append(c0)
     dex = ['flow %s %d %s %s' % (TS_COQ[c['test_stat']], c['ntoys'], core.q(c['poi']),
                                  core.clist(c['tobs'], lambda t: 'None' if t is None else '(Some %s)' % core.q(t))) for c in dcases]
@@ -649,11 +659,12 @@ def run(ctx):
                 continue
             lg = im['log']
             want_fits = [c['poi'], 1.0 if c['test_stat'] == 'q0' else 0.0]
-            if sorted(f['poi'] for f in lg['fits']) != sorted(want_fits) or not all(all(v for k, v in f.items() if k != 'poi') for f in lg['fits']):
+            reused = bool(c.get('warmup'))      # on a reused calculator only the RESULTS gate (an implementation may legitimately keep the background fit)
+            if not reused and (sorted(f['poi'] for f in lg['fits']) != sorted(want_fits) or not all(all(v for k, v in f.items() if k != 'poi') for f in lg['fits'])):
                 report('toy-hypotheses:' + c['test_stat'], 'conditional fits were run at POI %r (arguments intact: %r); signal toys need the fit at the tested value %r, background toys at %r'
                        % ([f['poi'] for f in lg['fits']], [all(v for k, v in f.items() if k != 'poi') for f in lg['fits']], want_fits[0], want_fits[1]),
                        dict(rep, impl=lg['fits'], expected=want_fits, theorem='C14_toy_hypotheses'))
-            if len(lg['draws']) != 2 or any(d[2] != [c['ntoys']] for d in lg['draws']) or len(lg['pdf_pars']) != 2:
+            if not reused and (len(lg['draws']) != 2 or any(d[2] != [c['ntoys']] for d in lg['draws']) or len(lg['pdf_pars']) != 2):
                 report('toy-draws:' + c['test_stat'], 'expected one draw of %d toys from each of the two pdfs, saw draws %r from pdfs at %r' % (c['ntoys'], lg['draws'], lg['pdf_pars']),
                        dict(rep, impl=dict(draws=lg['draws'], pdf_pars=lg['pdf_pars']), theorem='C14_toy_hypotheses'))
             if not finite(im['sb'] + im['b'] + [im['teststat']]):
